@@ -39,11 +39,11 @@ META_COMMON = {
     "trusted_base": [
         "hand-written Gallina transcription of the muxer (Model/Mux.v: Start, write* front ends after byte parsing, fmp4WriteSample, rotateParts/rotateSegments, playlist generation, path table), tied to /repo by this correspondence run",
         "extraction to OCaml for the correspondence run: ExtrOcamlBasic only (bool, option, unit, list, prod, sumbool mapped to OCaml's own types); Z / positive / nat stay Coq's inductive types; coq/extract/muxdriver.ml parses the histories and prints the trace",
-        "oracles: fMP4 / MPEG-TS byte encoding (mediacommon, go-astits), SPS parsing, H264 DTS extraction (streams use pic_order_cnt_type 2 so dts = pts), storage (C17), net/http plumbing",
+        "oracles: fMP4 / MPEG-TS byte encoding (mediacommon, go-astits), SPS / sequence-header parsing, H264 and H265 DTS extraction (mediacommon's DTSExtractor: the harness runs its own instance over the concrete access units and takes the abstract dts of a unit to be what it returns; H264 streams use pic_order_cnt_type 2 (dts = pts) and pic_order_cnt_type 0 with B pictures (dts < pts)), storage (C17), net/http plumbing",
         "Go harness harness/cmd/mux: generator, concretisation of abstract access units into real NALUs / AUs / Opus packets, independent M3U8 reader and MPEG-TS demuxer, property oracles; lib/vlib.py",
     ],
     "assumptions": [
-        "all six codecs are concretised by the harness (H264/H265 parameter sets and slices, VP9 frame headers, AV1 OBUs built from the specs and self-checked against mediacommon's parsers at start-up); H265 DTS extraction is exercised with reordering, the abstract dts is what the real extractor returns",
+        "all six codecs are concretised by the harness (H264/H265 parameter sets and slices, VP9 frame headers, AV1 OBUs built from the specs and self-checked against mediacommon's parsers at start-up); H264 and H265 DTS extraction is exercised with reordering, the abstract dts is what the real extractor returns (units it rejects are not generated)",
         "Track.ClockRate equals the init timescale of the codec (the documented usage)",
         "observations are taken between Write calls (one writer; the concurrent layer is C06-C08)",
     ],
